@@ -90,7 +90,7 @@ theorem C10_nil_withMessage (n : Nat) (rs : RStr) : cWithMessage n rs none = non
 theorem C10_nil_withStack (n : Nat) (st : Stack) : cWithStack n st none = none := rfl
 theorem C10_nil_wrap (n : Nat) (b : Bool) (rs : RStr) (st : Stack) : cWrap n b rs st none = none := rfl
 theorem C10_nil_annot (n : Nat) (k : WrapKind) : cAnnot n k none = none := rfl
-theorem C10_nil_tags (n : Nat) (t : List (Str × Str)) (r : List Str) : cTags n t r none = none := rfl
+theorem C10_nil_tags (n : Nat) (t : List (Str × Str)) (r : List Nat) : cTags n t r none = none := rfl
 theorem C10_nil_handled (n : Nat) (rs : RStr) : cHandled n rs none = none := rfl
 theorem C10_nil_mark (P : Proc) (n : Nat) (r : Option Err) : cMark P n none r = some none := rfl
 theorem C10_nil_wrapfE (n : Nat) (rs : RStr) (st : Stack) (l : List Err) : cWrapfE n rs st l none = none := rfl
